@@ -11,6 +11,7 @@ import (
 	"log/slog"
 	"os"
 	"path/filepath"
+	"strings"
 	"sync"
 	"time"
 
@@ -137,7 +138,9 @@ func (m *mem) RepoGet(ctx context.Context, repoStr string) (Repo, error) {
 	if *m.conf.API.Referrer.Enabled {
 		mr.index.Annotations[types.AnnotReferrerConvert] = "true"
 	}
-	if m.conf.Storage.RootDir != "" {
+	// a name that the directory store cannot hold has no backing directory, the repository only exists in memory
+	if m.conf.Storage.RootDir != "" && len(repoStr) <= repoNameMax &&
+		!stringsHasAny(strings.Split(repoStr, "/"), indexFile, layoutFile, blobsDir) {
 		mr.path = filepath.Join(m.conf.Storage.RootDir, repoStr)
 		err := mr.repoInit()
 		if err != nil {
